@@ -185,7 +185,7 @@ func c20TypeOfVal(v V) reflect.Type {
 		return reflect.ArrayOf(len(v.L[2].L), c20Type(v.L[1]))
 	case 21:
 		return reflect.MapOf(c20Type(v.L[1]), c20Type(v.L[2]))
-	case 22, 26:
+	case 22, 26, 28:
 		return reflect.PtrTo(c20Type(v.L[1]))
 	case 20:
 		return c20Iface[v.L[1].Int()]
@@ -203,6 +203,9 @@ func c20TypeOfVal(v V) reflect.Type {
 // nodes built so far for the current top-level value, by sharing id
 var c20Shared = map[int]reflect.Value{}
 var c20SharedText = map[int]string{}
+
+// interior pointers built as nil placeholders and not yet set by c20Fix
+var c20Pending int
 
 // the heap cells built so far for the current size.Of/heap case: cell a is *c20Cells[a]
 var c20Cells []reflect.Value
@@ -230,6 +233,14 @@ func c20Build(v V, t reflect.Type) reflect.Value {
 	}
 	id := 0
 	switch v.L[0].Int() {
+	case 28:
+		// [28, T, [v], path]: an INTERIOR pointer (of type *T) to the part of the value found by
+		// walking path from the root; nil for now, set by c20Fix once the whole value stands
+		if t.Kind() != reflect.Ptr || t.Elem() != c20Type(v.L[1]) || len(v.L) != 4 || len(v.L[2].L) != 1 {
+			c20Fatal("ill-typed interior pointer")
+		}
+		c20Pending++
+		return reflect.New(t).Elem()
 	case 26:
 		// [26, T, a]: the pointer to heap cell a (size.Of/heap)
 		a := v.L[2].Int()
@@ -374,6 +385,115 @@ func c20Build1(v V, t reflect.Type) reflect.Value {
 	return r
 }
 
+
+// ---- interior pointers: [28, T, [v], path] points INTO the value: to the part reached from the root by
+// path (i >= 0: field / element i, -1: the pointee / dynamic value).  The text [v] is that part once
+// more (the tree reading of the value: size.Of follows the pointer and counts the part again).
+
+func c20Nav(root reflect.Value, path V) reflect.Value {
+	cur := root
+	for _, st := range path.L {
+		i := st.Int()
+		switch {
+		case i < 0:
+			cur = cur.Elem()
+		case cur.Kind() == reflect.Struct:
+			cur = cur.Field(i)
+		default:
+			cur = cur.Index(i)
+		}
+	}
+	return cur
+}
+
+func c20Settable(rv reflect.Value) reflect.Value {
+	if rv.CanSet() {
+		return rv
+	}
+	if !rv.CanAddr() {
+		c20Fatal("an interior pointer stands where it cannot be set (inside a map value / a dynamic value)")
+	}
+	return reflect.NewAt(rv.Type(), unsafe.Pointer(rv.UnsafeAddr())).Elem()
+}
+
+type c20FixCheck struct {
+	target reflect.Value
+	v      V
+}
+
+func c20InteriorPtr(v V, root reflect.Value, checks *[]c20FixCheck) reflect.Value {
+	target := c20Nav(root, v.L[3])
+	if !target.CanAddr() {
+		c20Fatal("the target of an interior pointer is not addressable")
+	}
+	if target.Type() != c20Type(v.L[1]) {
+		c20Fatal("interior pointer of type *%s to a %s", c20Type(v.L[1]), target.Type())
+	}
+	*checks = append(*checks, c20FixCheck{target, v})
+	c20Pending--
+	return reflect.NewAt(target.Type(), unsafe.Pointer(target.UnsafeAddr()))
+}
+
+func c20FixWalk(v V, rv, root reflect.Value, checks *[]c20FixCheck) {
+	switch v.L[0].Int() {
+	case 28:
+		c20Settable(rv).Set(c20InteriorPtr(v, root, checks))
+	case 23:
+		for i, e := range v.L[3].L {
+			c20FixWalk(e, rv.Index(i), root, checks)
+		}
+	case 17:
+		for i, e := range v.L[2].L {
+			c20FixWalk(e, rv.Index(i), root, checks)
+		}
+	case 21:
+		if rv.Len() > 0 {
+			keys := c20MapKeys[rv.Pointer()]
+			for i, kv := range v.L[4].L {
+				c20FixWalk(kv.L[1], rv.MapIndex(keys[i]), root, checks)
+			}
+		}
+	case 22:
+		if len(v.L[2].L) == 1 && rv.Type() != reflect.TypeOf((*c20IntRead)(nil)) {
+			c20FixWalk(v.L[2].L[0], rv.Elem(), root, checks)
+		}
+	case 20:
+		if len(v.L[2].L) == 1 {
+			if d := v.L[2].L[0]; d.L[0].Int() == 28 {
+				c20Settable(rv).Set(c20InteriorPtr(d, root, checks))
+			} else {
+				c20FixWalk(d, rv.Elem(), root, checks)
+			}
+		}
+	case 25:
+		for i, fv := range v.L[1].L {
+			c20FixWalk(fv, rv.Field(i), root, checks)
+		}
+	}
+}
+
+// c20Fix sets the interior pointers of a built value and checks that each of them points to what
+// its text says
+func c20Fix(v V, root reflect.Value) {
+	if c20Pending == 0 {
+		return
+	}
+	checks := []c20FixCheck{}
+	c20FixWalk(v, root, root, &checks)
+	if c20Pending != 0 {
+		c20Fatal("%d interior pointers were not set", c20Pending)
+	}
+	for _, c := range checks {
+		want := c20Ser(c20Build(c.v.L[2].L[0], c.target.Type()))
+		if c20Pending != 0 {
+			c20Fatal("an interior pointer to a part that holds an interior pointer")
+		}
+		if got := c20Ser(c.target); got != want {
+			c20Fatal("an interior pointer points to %s, its text says %s", got, want)
+		}
+	}
+}
+
 // c20Arg turns the top-level description into the interface{} argument.
 // Any failure to BUILD the value (ill-formed or ill-typed description, e.g. one
 // produced by the shrinker) is a harness error (exit 2), never an observation:
@@ -388,13 +508,16 @@ func c20Arg(v V) (data interface{}) {
 	c20SharedText = map[int]string{}
 	c20MapKeys = map[uintptr][]reflect.Value{}
 	c20Cells = nil
+	c20Pending = 0
 	if v.IsList() && len(v.L) == 1 && !v.L[0].IsList() && v.L[0].Z.Sign() == 0 {
 		return nil
 	}
 	if v.L[0].Int() == 20 {
 		c20Fatal("top-level value of interface kind")
 	}
-	return c20Build(v, c20TypeOfVal(v)).Interface()
+	r := c20Build(v, c20TypeOfVal(v))
+	c20Fix(v, r)
+	return r.Interface()
 }
 
 
@@ -428,6 +551,9 @@ func c20PtrInside(rv reflect.Value) bool {
 // building the value again (a map key whose %s text contains an address) or contains a newline.
 func c20Label(v V, rv reflect.Value, stable *bool) string {
 	k := v.L[0].Int()
+	if k == 28 {
+		k = 22 // an interior pointer is a pointer
+	}
 	if reflect.Kind(k) != rv.Kind() {
 		c20Fatal("label: kind %d but the value is a %s", k, rv.Kind())
 	}
@@ -560,7 +686,7 @@ func (d *c20DetInfo) walk(v V, depth, maxItem int) {
 			}
 		}
 		items(v.L[4].L, func(e V) V { return e.L[1] })
-	case 22:
+	case 22, 28:
 		for _, e := range v.L[2].L {
 			d.walk(e, depth, maxItem)
 		}
@@ -720,6 +846,7 @@ func c20HeapArg(cells, root V) (data interface{}) {
 	c20SharedText = map[int]string{}
 	c20MapKeys = map[uintptr][]reflect.Value{}
 	c20Cells = nil
+	c20Pending = 0
 	for _, c := range cells.L { // [T, value]
 		t := c20Type(c.L[0])
 		p := reflect.New(t)
@@ -729,7 +856,11 @@ func c20HeapArg(cells, root V) (data interface{}) {
 	if root.L[0].Int() == 20 {
 		c20Fatal("top-level value of interface kind")
 	}
-	return c20Build(root, c20TypeOfVal(root)).Interface()
+	r := c20Build(root, c20TypeOfVal(root))
+	if c20Pending != 0 {
+		c20Fatal("interior pointers are not supported in heap cases")
+	}
+	return r.Interface()
 }
 
 
@@ -769,8 +900,12 @@ func c20Session(a []V) string {
 		c20Shared, c20SharedText = map[int]reflect.Value{}, map[int]string{}
 		c20MapKeys, c20Cells = map[uintptr][]reflect.Value{}, nil
 		t = c20Type(a[0])
+		c20Pending = 0
 		x1 = c20Build(a[1], t)
 		x2 = c20Build(a[2], t)
+		if c20Pending != 0 {
+			c20Fatal("interior pointers are not supported in sessions")
+		}
 	}()
 	d, m, variant := a[3].Int(), a[4].Int(), a[5].Int()
 	rounds := []string{}
@@ -1279,7 +1414,7 @@ type c20Shape struct {
 	ids   map[int]int // sharing id -> number of occurrences
 }
 
-var c20KindName = map[int]string{17: "A", 20: "I", 21: "M", 22: "P", 23: "S", 24: "s", 25: "T"}
+var c20KindName = map[int]string{17: "A", 20: "I", 21: "M", 22: "P", 23: "S", 24: "s", 25: "T", 28: "Q"}
 
 func (s *c20Shape) walk(v V, d int) {
 	s.nodes++
@@ -1324,7 +1459,7 @@ func (s *c20Shape) walk(v V, d int) {
 			s.walk(e.L[0], d+1)
 			s.walk(e.L[1], d+1)
 		}
-	case 22, 20:
+	case 22, 20, 28:
 		if len(v.L[2].L) == 0 {
 			s.nils[c20KindName[k]] = true
 		}
@@ -1910,6 +2045,62 @@ func genC20(g *Gen) {
 			sess(t, v1, v2, g.R.Pick(0, 0, 1, 2, 2, 3), "rand-session")
 		}
 		g.Exhaust = append(g.Exhaust, "sessions: 4 holder variants (chan member, func member, []interface{} with a chan, no unsupported member) x pointees of every element type and slices of them growing from 1 to 5 elements")
+	}
+
+
+	// (3i) INTERIOR pointers: a pointer into the value itself — to the first (same address as the enclosing
+	// pointee) or a later field / element of a pointee the traversal is inside of; acyclic, and a pointer
+	// costs 8 + its pointee wherever the pointee lives
+	{
+		path := func(xs ...int) string { return Ints(xs) }
+		ip := func(T, v, p string) string { return L("28", T, L(v), p) }
+		for _, e := range elems {
+			if e.t.K == 20 {
+				continue
+			}
+			T := e.t.Text()
+			PT := L("22", T)
+			arr := func(n int) string { return L("17", T, rep(n, e.v)) }
+			// ring: &struct{slots [3]T; cur *T}, cur = &slots[j]
+			ringT := L("25", L(L("17", T, "3"), PT))
+			ring := func(j int, pre ...int) string {
+				return L("22", ringT, L(L("25", L(arr(3), ip(T, e.v(j), path(append(pre, -1, 0, j)...))))))
+			}
+			for j := 0; j < 3; j++ {
+				emit(ring(j), "exh-interior")
+			}
+			// a slice of rings, an interface holding a ring
+			emit(L("23", L("22", ringT), "0", L(ring(0, 0), ring(1, 1), ring(0, 2))), "exh-interior")
+			emit(L("25", L("[1,1]", L("20", "0", L(ring(0, 1, -1))))), "exh-interior")
+			// rec: &struct{id T; tag string; key *T; ktag *string}, key = &id (first member), ktag = &tag
+			recT := L("25", L(T, "[24]", PT, "[22,[24]]"))
+			tag := L("24", Str("tag"))
+			emit(L("22", recT, L(L("25", L(e.v(0), tag, ip(T, e.v(0), path(-1, 0)), L("22", "[24]", L()))))), "exh-interior")
+			emit(L("22", recT, L(L("25", L(e.v(0), tag, L("22", T, L()), ip("[24]", tag, path(-1, 1)))))), "exh-interior")
+			emit(L("22", recT, L(L("25", L(e.v(0), tag, ip(T, e.v(0), path(-1, 0)), ip("[24]", tag, path(-1, 1)))))), "exh-interior")
+			// first member of the first member: &struct{in struct{a T; b int8}; pa *T; pin *struct{...}}
+			inT := L("25", L(T, "[3]"))
+			in := L("25", L(e.v(2), "[3,1]"))
+			nestT := L("25", L(inT, PT, L("22", inT)))
+			emit(L("22", nestT, L(L("25", L(in, ip(T, e.v(2), path(-1, 0, 0)), ip(inT, in, path(-1, 0)))))), "exh-interior")
+			// pointer to pointer: the inner pointee holds a pointer to its own first member
+			emit(L("22", L("22", recT), L(L("22", recT, L(L("25", L(e.v(1), tag, ip(T, e.v(1), path(-1, -1, 0)), L("22", "[24]", L()))))))), "exh-interior")
+			// holder{arr *[3]T; head *T}: siblings to one address (never nested); head = &arr[0] / &arr[2]
+			holdT := L("25", L(L("22", L("17", T, "3")), PT))
+			for _, j := range []int{0, 2} {
+				emit(L("22", holdT, L(L("25", L(L("22", L("17", T, "3"), L(arr(3))), ip(T, e.v(j), path(-1, 0, -1, j)))))), "exh-interior")
+			}
+			// []interface{}{inner, inner.arr, &inner.arr[0]}
+			inner := L("22", holdT, L(L("25", L(L("22", L("17", T, "3"), L(arr(3))), L("22", T, L())))))
+			emit(L("23", "[20,0]", "0", L(
+				L("20", "0", L(inner)),
+				L("20", "0", L(ip(L("17", T, "3"), arr(3), path(0, -1, -1, 0, -1)))),
+				L("20", "0", L(ip(T, e.v(0), path(0, -1, -1, 0, -1, 0)))))), "exh-interior")
+			// pointer to the first element of a slice held by the same pointee
+			slT := L("25", L(L("23", T), PT))
+			emit(L("22", slT, L(L("25", L(L("23", T, "0", rep(2, e.v)), ip(T, e.v(0), path(-1, 0, 0)))))), "exh-interior")
+		}
+		g.Exhaust = append(g.Exhaust, fmt.Sprintf("interior pointers: to element 0/1/2 of an inline array of the enclosing pointee, to its first / second member, to the first member of its first member (two pointer types, one address), through a pointer to pointer, sibling pointers into one array, inside interfaces and slices, to the first element of a slice x %d element types", len(elems)-1))
 	}
 
 	// (3c) slices / arrays whose elements are ARRAYS of non-scalars: outer x array length x inner shape x leaf type
